@@ -102,7 +102,7 @@ func c01Run(c *Ctx) {
 			switch c.W.Draw(3) {
 			case 0, 1:
 				c.Fault("restart-during-traffic")
-				if !CallTimeout(10*time.Second, func() { _ = pid.Restart(s.Ctx) }) {
+				if !CallTimeout(3*time.Second, func() { _ = pid.Restart(s.Ctx) }) {
 					c.Probe("restart-call-hung") // Restart racing a supervisor restart can wait forever (DESIGN.md, observations)
 				}
 			case 2:
